@@ -167,10 +167,19 @@ Definition next_due (t : nat) (s : st) : option (pend * bool) :=
   match sort_pend (filter (fun p => Nat.leb (p_due p) t) (s_pending s)) with
   | [] => None
   | p :: [] => Some (p, false)
-  | p :: q :: _ => Some (p, Nat.eqb (p_due p) (p_due q))     (* bool: tie on the clock *)
+  | p :: q :: _ => Some (p, Nat.eqb (p_due p) (p_due q) && negb (is_start q))     (* bool: tie on the clock *)
   end.
 Definition drop_pend (p : pend) (s : st) : st :=
   with_pending (filter (fun q => negb (Nat.eqb (p_seq q) (p_seq p))) (s_pending s)) (s_seq s) s.
+
+(* The async consumer, when idle, is suspended in `queue.get()`: the status test of its `while` loop was made
+   BEFORE it started waiting, so the next event to arrive is processed even if the status changed meanwhile
+   (an unhandled service failure queues error.platform.* and then fails the machine). *)
+Definition async_wake (m : machine) (s : st) : st * bool :=
+  match s_queue s with
+  | ev :: q => async_loop async_loop_fuel m (async_step m ev (with_queue q s))
+  | [] => (s, false)
+  end.
 
 Fixpoint advance_idle (fuel : nat) (eng : engine) (m : machine) (t : nat) (s : st) : st * bool :=
   match fuel with
@@ -178,14 +187,17 @@ Fixpoint advance_idle (fuel : nat) (eng : engine) (m : machine) (t : nat) (s : s
   | S f =>
       match next_due t s with
       | None => (with_now (Nat.max t (s_now s)) s, false)
-      | Some (p, true) => (logo (OCut 9) s, false)      (* inconclusive: see advance_busy *)
-      | Some (p, false) =>
+      | Some (p, tie) =>
+          if tie && negb (is_start p) then (logo (OCut 9) s, false)      (* inconclusive: see busy_loop *)
+          else
           let s1 := with_now (Nat.max (p_due p) (s_now s)) (drop_pend p s) in
           match eng with
           | Async =>
-              match async_loop async_loop_fuel m (deliver Async p s1) with
-              | (s2, true) => (s2, true)
-              | (s2, false) => advance_idle f eng m t s2
+              let was_running := match s_status s1 with Running => true | _ => false end in
+              let s2 := deliver Async p s1 in
+              match (if was_running then async_wake m s2 else (s2, false)) with
+              | (s3, true) => (s3, true)
+              | (s3, false) => advance_idle f eng m t s3
               end
           | _ =>
               (* the timer thread finds the interpreter idle and drains the queue itself *)
